@@ -49,6 +49,10 @@ func fieldCases() []fieldCase {
 		{Name: "automap", Decls: in + "type PFXOut struct {\n\tName string\n\tLast string\n\tStreet string\n}\n", Src: "PFXIn", Tgt: "PFXOut",
 			Lines: []string{"autoMap Nested"},
 			Pairs: map[string]*PairSpec{"PFXIn→PFXOut": {Fields: map[string]*FieldSpec{"Last": fs("Nested", "Last"), "Street": fs("Nested", "Street")}}}},
+		// autoMap concerns the method's own struct pair, not unnamed structs nested in it
+		{Name: "automap_with_nested_unnamed", Decls: in + "type PFXIn2 struct {\n\tName string\n\tNested PFXN\n\tMeta struct{ Zip int }\n\tL []struct{ Zip int }\n}\ntype PFXOut struct {\n\tName string\n\tLast string\n\tMeta struct{ Zip int }\n\tL []struct{ Zip int }\n}\n", Src: "PFXIn2", Tgt: "PFXOut",
+			Lines: []string{"autoMap Nested", "ignoreMissing"},
+			Pairs: map[string]*PairSpec{"PFXIn2→PFXOut": {IgnoreMissing: true, Fields: map[string]*FieldSpec{"Last": fs("Nested", "Last")}}}},
 		{Name: "automap_deep", Decls: in + "type PFXOut struct {\n\tName string\n\tZip int\n}\n", Src: "PFXIn", Tgt: "PFXOut",
 			Lines: []string{"autoMap Nested.Deep"},
 			Pairs: map[string]*PairSpec{"PFXIn→PFXOut": {Fields: map[string]*FieldSpec{"Zip": fs("Nested", "Deep", "Zip")}}}},
